@@ -5,7 +5,7 @@ set -u
 export GOFLAGS=-mod=mod GOPROXY=off GOSUMDB=off GOTOOLCHAIN=local
 P="$1"; K="$2"
 src=/tmp/wt-$P/out
-id="$P-benign$K"
+id="$P-${ROUND:+$ROUND-}benign$K"
 dst=/verif/benign/$id
 [ -f $src/refactor$K.diff ] || { echo "no $src/refactor$K.diff"; exit 2; }
 scratch=/tmp/wt-verify
